@@ -144,8 +144,30 @@ func genC13(tier string, r *rng) {
 			leaves = append(leaves, &tlv{cls: o.cls, tag: o.tag, content: c})
 		}
 	}
+	// primitives whose CONTENT is itself a complete DER encoding (an implementation must not look inside),
+	// and primitives whose last content octet is LF / CR / space / NUL
+	inner := [][]byte{(&tlv{cls: 0, tag: 16, constructed: true, kids: []*tlv{{cls: 0, tag: 2, content: []byte{5}}}}).enc(),
+		(&tlv{cls: 0, tag: 16, constructed: true}).enc(), (&tlv{cls: 0, tag: 2, content: []byte{1}}).enc(),
+		(&tlv{cls: 0, tag: 16, constructed: true, kids: []*tlv{{cls: 0, tag: 6, content: []byte{0x2a, 3}}, {cls: 0, tag: 5}}}).enc(),
+		(&tlv{cls: 2, tag: 0, constructed: true, kids: []*tlv{{cls: 0, tag: 12, content: []byte("x")}}}).enc()}
+	for _, in := range inner {
+		for _, t := range []struct{ cls, tag int }{{0, 4}, {0, 3}, {2, 0}, {2, 4}, {1, 4}, {0, 12}, {0, 24}} {
+			c := in
+			if t.cls == 0 && t.tag == 3 {
+				c = append([]byte{0}, in...)
+			}
+			leaves = append(leaves, &tlv{cls: t.cls, tag: t.tag, content: c})
+		}
+	}
+	for _, last := range []byte{0x0a, 0x0d, 0x20, 0x00} {
+		leaves = append(leaves, &tlv{cls: 0, tag: 2, content: []byte{last}}, &tlv{cls: 0, tag: 4, content: []byte{1, last}},
+			&tlv{cls: 0, tag: 12, content: []byte{'a', last}}, &tlv{cls: 0, tag: 12, content: []byte{'a', 0x0d, 0x0a}},
+			&tlv{cls: 2, tag: 1, content: []byte{last, last}})
+	}
 	for _, l := range leaves {
 		emitA(l.enc())
+		emit("asn1file", hx(l.enc()))
+		emit("asn1file", hx((&tlv{cls: 0, tag: 16, constructed: true, kids: []*tlv{l}}).enc()))
 	}
 	// constructed shells (incl. empty) around 0..2 leaves: all trees with <= 3 nodes over a reduced set
 	shells := []struct{ cls, tag int }{{0, 16}, {0, 17}, {2, 0}, {2, 5}, {1, 13}, {3, 31}, {3, 1 << 14}, {0, 5}, {0, 4}}
@@ -223,6 +245,13 @@ func genC13(tier string, r *rng) {
 			continue
 		}
 		emitA(append(append([]byte{}, d...), 0))
+		for _, tr := range [][]byte{{0x0a}, {0x0d, 0x0a}, {0x0d}, {0x20}, {0xff}, {0x0a, 0x0a}} {
+			x := append(append([]byte{}, d...), tr...)
+			emitA(x)
+			if i%25 == 0 {
+				emit("asn1file", hx(x))
+			}
+		}
 		emitA(append(append([]byte{}, d...), d...))
 		emitA(d[:len(d)-1])
 		emitA(d[:r.intn(len(d))])
